@@ -21,13 +21,13 @@ TIERS = {
               "NULLABLE": (8, 16, 7, 13, 24, 14), "AMBIG": (6, 15, 5, 13, 24, 14), "LEFTREC": (7, 22, 6, 16, 24, 14),
               "RIGHTREC": (8, 20, 7, 16, 24, 14), "MULTICHAR": (3, 8, 3, 8, 8, 9), "CSVISH": (8, 22, 7, 16, 28, 18),
               "TWOSTART": (8, 16, 7, 13, 12, 14), "LENGTHS": (7, 18, 6, 14, 24, 14)},
-        expand_seeds=3, mutate_seeds=1, step_timeout=150, cap=8, n_phase1=5, phase1_seeds=1),
+        expand_seeds=3, mutate_seeds=2, step_timeout=150, cap=10, n_phase1=5, phase1_seeds=1),
     "thorough": dict(
         plan={"ASSGN2": (9, 34, 8, 22, 220, 120), "XMLISH": (8, 34, 7, 24, 220, 120), "NUM": (8, 20, 7, 16, 160, 100),
               "NULLABLE": (10, 20, 9, 17, 60, 30), "AMBIG": (7, 17, 6, 15, 160, 60), "LEFTREC": (8, 24, 7, 18, 160, 80),
               "RIGHTREC": (9, 24, 8, 18, 160, 80), "MULTICHAR": (3, 8, 3, 8, 8, 9), "CSVISH": (8, 24, 7, 18, 220, 120),
               "TWOSTART": (10, 20, 9, 17, 30, 20), "LENGTHS": (8, 20, 7, 16, 160, 100)},
-        expand_seeds=5, mutate_seeds=4, step_timeout=400, cap=30, n_phase1=16, phase1_seeds=2),
+        expand_seeds=9, mutate_seeds=7, step_timeout=400, cap=30, n_phase1=16, phase1_seeds=2),
 }
 FUZZERS = [("GrammarFuzzer", 0, 10), ("GrammarCoverageFuzzer", 0, 10), ("GrammarFuzzer", 2, 5), ("GrammarCoverageFuzzer", 3, 20)]
 OPS = ["mutate", "replace_subtree_randomly", "swap_subtrees", "generalize_subtree"]
@@ -92,6 +92,7 @@ def build_units(chk, wd):
                     unit = 3
                 for ci, c in enumerate(chunks(order, max(1, len(order) // unit))):
                     units.append({"grammar": name, "g": jg, "kind": "expand", "cls": cls, "minnt": mn, "maxnt": mx, "cap": P["cap"],
+                                  "reclimit": 400 if mn > 0 else 0,
                                   "eps": bool((s + fi + ci) % 2), "seed": rnd.randrange(1, 10 ** 6), "pres": c})
         for s in range(P["mutate_seeds"]):
             for op in OPS:
@@ -168,9 +169,10 @@ def run(chk, units):
                     chk.cov["traces_validated_against_impl"] += 1
                 else:
                     sig = {"clause": why, "op": st["op"], "exc": st["exc"].split(":")[0]}
-                    if st["kind"] == "expand":
-                        sig["fuzzer"] = u["cls"]
-                        sig["min_nonterminals_positive"] = u["minnt"] > 0
+                    # families: the main family runs the fuzzers with their default settings (min_nonterminals = 0);
+                    # the min_nonterminals > 0 variant (phase 1 of expand_tree) is a separately labelled family
+                    sig["family"] = ("mutate" if st["kind"] == "mutate" else
+                                     "expand-min-nonterminals" if u["minnt"] > 0 else "expand-default-settings")
                     unit = dict(u, pres=u["pres"][:k + 1])
                     if "ops" in unit:
                         unit["ops"] = unit["ops"][:k + 1]
@@ -205,7 +207,9 @@ def main(tier):
                        % (len(P["plan"]), P["expand_seeds"], P["mutate_seeds"]))
     chk.assumptions = ["an exception of expand_tree / mutate on a valid input is reported as a violation (the statement says a tree is yielded for every random choice)",
                        "a mutation strategy answering Nothing is not a step (counted as strategy_not_applicable)",
-                       "units exceeding the wall-clock cap are unjudged"]
+                       "units exceeding the wall-clock cap are unjudged",
+                       "units with min_nonterminals > 0 run with the interpreter recursion limit lowered to 400 (their trees are < 60 deep) so that a "
+                       "diverging expansion ends in its RecursionError quickly; the replay file reproduces it at the default limit as well"]
     chk.cov["bounds"] = {k: list(v) for k, v in P["plan"].items()}
     run(chk, None)
     return chk.finish(exhaustive=False)
